@@ -104,7 +104,14 @@ def run(ctx):
         c.name, c.files, c.text, c.meta = "frame%d" % i, {}, None, []
         kw = {} if (et == 0x0800 and r.random() < 0.5) else {"ethertype": et}
         c.gen = {"kind": "frame", "dst": dstm, "src": srcm, "et": et, "pl": pl, "ip": a}
-        c.stmts = [Import("eth"), Do(Call("eth::frame", STR(srcm), STR(dstm), _x=[STR(pl)], **kw)),
+        # the two addresses by position, by name in either order, or mixed: the frame is the same
+        form = i % 4
+        fr = [Call("eth::frame", STR(srcm), STR(dstm), _x=[STR(pl)], **kw),
+              Call("eth::frame", _x=[STR(pl)], src=STR(srcm), dst=STR(dstm), **kw),
+              Call("eth::frame", _x=[STR(pl)], dst=STR(dstm), src=STR(srcm), **kw),
+              Call("eth::frame", STR(srcm), _x=[STR(pl)], dst=STR(dstm), **kw)][form]
+        c.gen["form"] = ["positional", "src:,dst:", "dst:,src:", "positional src, dst:"][form]
+        c.stmts = [Import("eth"), Do(fr),
                    Do(Call("eth::frame", Call("eth::from_ip", IP(a)), Ref("eth::BROADCAST"), _x=[Call("eth::from_ip", IP(a))]))]
         cases.append(c)
     diff.run_both(ctx, "c18", cases)
